@@ -4,11 +4,12 @@
 # several of these can run side by side), runs the check against it with VERIF_REPO
 # into a scratch VERIF_DIR, and removes both.
 P="$1"; ID="$2"; SECS="${3:-10}"
+VROOT="$(cd "$(dirname "${BASH_SOURCE[0]}")/.." && pwd)"  # the /verif this script belongs to (a snapshot when run through vp run)
 WT=$(mktemp -d /tmp/mutwt-XXXX); rmdir $WT
 git -C /repo worktree add -q --detach $WT HEAD || { echo "WORKTREE FAILED"; exit 9; }
 git -C $WT apply "$P" || { echo "APPLY FAILED $P"; git -C /repo worktree remove --force $WT; exit 9; }
 OUT=$(mktemp -d /tmp/vmut-XXXX)
-cp /verif/known_findings.json $OUT/ 2>/dev/null
-VERIF_REPO=$WT VERIF_DIR=$OUT VERIF_SECS=$SECS /verif/run.sh check "$ID" quick 2>&1 | grep -E "^(VIOLATION|FATAL|OK|SUMMARY|KNOWN)" | cut -c1-${WIDTH:-400}
+cp $VROOT/known_findings.json $OUT/ 2>/dev/null
+VERIF_REPO=$WT VERIF_DIR=$OUT VERIF_SECS=$SECS $VROOT/run.sh check "$ID" quick 2>&1 | grep -E "^(VIOLATION|FATAL|OK|SUMMARY|KNOWN)" | cut -c1-${WIDTH:-400}
 git -C /repo worktree remove --force $WT
 rm -rf $OUT
